@@ -135,22 +135,25 @@ Section C09.
   (* end to end: an operator accepted by the constructor applies, row by broadcast row, the banded
      Toeplitz matrix of the band values selected for that row - whatever the method, the FFT size
      (given or default) and the batch shapes; no shape error, no clamped index, and the
-     core-dimension check of jnp.vectorize passes.  band values of shape batch ++ [Kb], input rows
-     of length n, out = the broadcast batch shape. *)
-  Theorem mv_correct : forall method fft_size batch Kb stored n (x band : barr K) out,
-    1 <= batch -> 1 <= Kb -> 1 <= n ->
-    ctor method fft_size (batch * Kb) Kb = Ok stored ->
+     core-dimension check of jnp.vectorize passes.  x: batched rows of length n, band: batched rows of
+     length Kb (band_values.size = batch * Kb), out = the broadcast batch shape. *)
+  Theorem mv_correct : forall method fft_size Kb stored n (x band : barr K) out,
+    1 <= Kb -> 1 <= n ->
+    wf_barr x n -> wf_barr band Kb ->
+    ctor method fft_size (zprod (bshape band) * Kb) Kb = Ok stored ->
     broadcast_shapes (bshape x) (bshape band) = Some out ->
-    (forall r, 0 <= r < zprod out ->
-       alen (brow K k0 x (bidx out (bshape x) r)) = n /\
-       alen (brow K k0 band (bidx out (bshape band) r)) = Kb) ->
     exists rows,
       mv K k0 kadd kmul direct_arith fft_arith os_arith method stored x band = Ok (out, rows) /\
       forall r, 0 <= r < zprod out ->
         is_Tx (brow K k0 band (bidx out (bshape band) r)) (brow K k0 x (bidx out (bshape x) r))
               (nth (Z.to_nat r) rows None).
   Proof.
-    intros method fft_size batch Kb stored n x band out Hb HK Hn Hc Hbc Hlen.
+    intros method fft_size Kb stored n x band out HK Hn Hwx Hwb Hc Hbc.
+    assert (Hb : 1 <= zprod (bshape band)) by (apply zprod_pos, Hwb).
+    assert (Hlen : forall r, 0 <= r < zprod out ->
+              alen (brow K k0 x (bidx out (bshape x) r)) = n /\
+              alen (brow K k0 band (bidx out (bshape band) r)) = Kb).
+    { intros r Hr. eapply wf_rows; try eassumption. lia. }
     destruct (ctor_ok_inv _ _ _ _ _ Hb HK Hc) as [Hin Hos].
     cbn in Hin. destruct Hin as [<-|[<-|[<-|[<-|[]]]]].
     - eapply mv_rows_l; try eassumption; [reflexivity|]. intros. apply dense_eq; lia.
@@ -258,3 +261,8 @@ Example example_os_sem : os_sem (os_arith 7 7 6) 6 3 7 (o_loop_hi (os_arith 7 7 
 Proof. split; [apply (gen_os 7 4 6); lia | reflexivity]. Qed.
 Example example_fits : fits_rev (rev [2; 1]) (rev [2; 3]).
 Proof. cbn. auto. Qed.
+Example example_wf :
+  wf_barr (zbarr [2; 3] [[1; 2]; [3; 4]; [5; 6]; [1; 0]; [0; 1]; [1; 1]]) 2 /\
+  wf_barr (zbarr [2; 1] [[1; 2; 3]; [4; 5; 6]]) 3 /\
+  broadcast_shapes [2; 3] [2; 1] = Some [2; 3].
+Proof. unfold wf_barr. cbn. repeat split; repeat constructor; lia. Qed.
